@@ -4,6 +4,7 @@ import PromProofs.HistSide
 import PromProofs.HistIdxBoth2
 import PromProofs.HistSeries
 import PromProofs.HistChunkRT
+import PromProofs.HistBridge
 /-
   C11 — Native histograms are stored and read back faithfully (layout level).
   Property theorems only; the model is PromModel/Tsdb/HistLayout.lean, lemmas are in
@@ -215,6 +216,18 @@ theorem caller_unchanged_partial (t : Int) (h : Hist) (r : AppRes)
 theorem histchunk_roundtrip (c : Chunk) (s0 : Stored) (ss : List Stored) (ok : Prom.HistChunk.ChunkOk c s0 ss) :
     Prom.HistChunk.decodeChunk (Prom.HistChunk.encodeChunk c) = some c :=
   Prom.HistChunk.decodeChunk_encodeChunk c s0 ss ok
+
+/-- **From appended histograms to bytes and back** (`append_roundtrip` ∘ `histchunk_roundtrip`).  Every chunk of a
+    head series built by the transcribed appender from valid integer histograms far inside the int64 range
+    (`SmallH`: |t| < 2^61, counts < 2^61, absolute bucket counts in [0, 2^60)) — whatever was cut, recoded forward
+    or backward — is decoded from its encoded bytes exactly, provided its final layout is encodable (`LayoutOk`:
+    exponential schema, span offsets/lengths in range).  Reading the decoded chunks therefore returns the appended
+    histograms (`append_roundtrip`). -/
+theorem bytes_roundtrip (ops : List ((Int × Hist) × Bool)) (s : Series) (hwf : ∀ p ∈ ops, WFs p.1.2)
+    (hsm : ∀ p ∈ ops, Prom.HistChunk.SmallH p.1) (hrun : runSeries ops Series.empty = .ok s) :
+    ∀ c ∈ s.chunks, Prom.HistChunk.LayoutOk (Prom.HistChunk.layoutOf c) →
+      Prom.HistChunk.decodeChunk (Prom.HistChunk.encodeChunk c) = some c :=
+  Prom.HistChunk.series_bytes_roundtrip ops s hwf hsm hrun
 
 /-- the hypotheses are met by a concrete two-sample chunk -/
 example : Prom.HistChunk.ChunkOk
